@@ -7,7 +7,13 @@ import "bytes"
 func init() {
 	vpRegister("VPH_C11_setattr", VPH_C11_setattr)
 	vpRegister("VPH_C11_newobjects", VPH_C11_newobjects)
+	vpRegister("VPH_C11_connection", VPH_C11_connection)
 }
+
+// VPH_C11_connection: new objects get the identity of the caller of *that* call, also when an
+// earlier call on the same connection came from someone else (real connection loop; the body is
+// shared with C10's connection harness, whose observable is exactly the backend's chown).
+func VPH_C11_connection() { VPH_C10_connection() }
 
 // vpCaller is a symbolic caller: credential flavor (AUTH_NONE or AUTH_SYS), wire uid/gid, and the
 // export's squash mode. eff() is the effective identity the statement of C10 prescribes for it
